@@ -1,4 +1,5 @@
 mod csv;
+mod depth_guard;
 mod in_parenthesis;
 mod keyword;
 mod keyword_map;
@@ -10,6 +11,7 @@ pub mod logging;
 mod with_pos;
 
 pub use self::csv::*;
+pub use self::depth_guard::*;
 pub use self::in_parenthesis::*;
 pub use self::keyword::*;
 pub use self::keyword_map::*;
